@@ -2,6 +2,7 @@ package props
 
 import (
 	"bytes"
+	"context"
 	"fmt"
 	"go/ast"
 	"go/format"
@@ -16,6 +17,8 @@ import (
 	"reflect"
 	"strconv"
 	"strings"
+	"syscall"
+	"time"
 
 	"verif/mc"
 	"verif/ref"
@@ -43,7 +46,7 @@ type c20Field struct {
 
 func c20Fields() []c20Field {
 	shapes := []struct{ name, decl string }{
-		{"single", "A %s"}, {"multi", "X, Y %s"}, {"embedded", "E"}, {"embedded", "*E"}, {"embedded", "GE[int]"}, {"embedded", "*GE[string]"}, {"embedded", "time.Time"}, {"embedded", "e"}, {"unexported", "b %s"}, {"blank", "_ %s"},
+		{"single", "A %s"}, {"multi", "X, Y %s"}, {"embedded", "E"}, {"embedded", "*E"}, {"embedded", "GE[int]"}, {"embedded", "*GE[string]"}, {"embedded", "GP[int, string]"}, {"embedded", "*GP[string, E]"}, {"embedded", "gp[int, int]"}, {"embedded", "time.Time"}, {"embedded", "e"}, {"unexported", "b %s"}, {"blank", "_ %s"},
 	}
 	typs := []string{"int", "string", "struct{ In int }"}
 	tags := []struct{ class, lit string }{
@@ -75,7 +78,7 @@ func c20Fields() []c20Field {
 func c20File(ctx string, fields []string) string {
 	body := "\t" + strings.Join(fields, "\n\t") + "\n"
 	var b strings.Builder
-	b.WriteString("// Package p is generated.\npackage p\n\nimport \"time\"\n\nvar _ = time.Now\n\n// E is embedded.\ntype E struct {\n\tQ int `plenc:\"1\"`\n}\n\n// GE is a generic embedded type, e an unexported one.\ntype GE[T any] struct {\n\tV T `plenc:\"1\"`\n}\n\ntype e struct {\n\tW int `plenc:\"1\"`\n}\n\n")
+	b.WriteString("// Package p is generated.\npackage p\n\nimport \"time\"\n\nvar _ = time.Now\n\n// E is embedded.\ntype E struct {\n\tQ int `plenc:\"1\"`\n}\n\n// GE is a generic embedded type, e an unexported one.\ntype GE[T any] struct {\n\tV T `plenc:\"1\"`\n}\n\ntype e struct {\n\tW int `plenc:\"1\"`\n}\n\n// GP and gp have two type parameters.\ntype GP[K comparable, V any] struct {\n\tK K `plenc:\"1\"`\n\tV V `plenc:\"2\"`\n}\n\ntype gp[K comparable, V any] struct {\n\tK K `plenc:\"1\"`\n\tV V `plenc:\"2\"`\n}\n\n")
 	switch ctx {
 	case "pkg":
 		b.WriteString("// S is the struct under test.\ntype S struct {\n" + body + "}\n")
@@ -95,6 +98,9 @@ var c20Importer = importer.ForCompiler(token.NewFileSet(), "source", nil)
 // c20Flags is one flag combination. A flag whose bit is set in omit is left off the command line;
 // its field then holds the default the tool documents in its usage text (-w=true -json=false
 // -sql=true -private=true), which is what the oracles expect the tool to apply.
+// c20Hung is set once the tool had to be killed.
+var c20Hung bool
+
 type c20Flags struct {
 	w, json, sql, private bool
 	omit                  uint8
@@ -216,6 +222,10 @@ func c20Work(c *mc.Ctx) {
 			if c.Tier != "thorough" && (i*31+j)%5 != 0 && !(f1.tag == "plenc" || f2.tag == "plenc") {
 				continue // quick: every pair involving an existing index, one in five of the others
 			}
+			if c.Tier != "thorough" {
+				run("pkg", []c20Field{f1, f2}, fewFlags[:2]) // quick: in place with defaults, and to stdout with -json
+				continue
+			}
 			run("pkg", []c20Field{f1, f2}, fewFlags)
 		}
 	}
@@ -335,6 +345,9 @@ func c20One(c *mc.Ctx, bin, dir, ctx string, fs []c20Field, src string, fl c20Fl
 		shapes = append(shapes, f.shape)
 		tags = append(tags, f.tag)
 	}
+	if c20Hung {
+		return
+	}
 	if !c.Begin(fmt.Sprintf(`{"ctx":%q,"flags":%q,"source":%q}`, ctx, fmt.Sprint(fl), src)) {
 		return
 	}
@@ -348,11 +361,20 @@ func c20One(c *mc.Ctx, bin, dir, ctx string, fs []c20Field, src string, fl c20Fl
 	file := filepath.Join(dir, fmt.Sprintf("w%d.go", c.W))
 	os.WriteFile(file, []byte(src), 0o644)
 	runTool := func() (stdout, stderr string, code int) {
-		cmd := exec.Command(bin, fl.args(file)...)
+		// (the tool needs milliseconds; the deadline only turns a tool that never finishes into a report,
+		// after which this worker stops: every further case would wait for it again)
+		ctxT, cancel := context.WithTimeout(context.Background(), time.Minute)
+		defer cancel()
+		cmd := exec.CommandContext(ctxT, bin, fl.args(file)...)
+		cmd.SysProcAttr = &syscall.SysProcAttr{Pdeathsig: syscall.SIGKILL} // never outlives this worker
 		var so, se bytes.Buffer
 		cmd.Stdout, cmd.Stderr = &so, &se
 		err := cmd.Run()
 		c.Ops(1)
+		if ctxT.Err() != nil {
+			c20Hung = true
+			return so.String(), "panic: plenctag did not finish within a minute (killed)", -1
+		}
 		if ee, ok := err.(*exec.ExitError); ok {
 			code = ee.ExitCode()
 		} else if err != nil {
@@ -649,12 +671,19 @@ func c20Multi(c *mc.Ctx, bin, dir, src string) {
 	c.NonTrivial()
 	fa, fb := filepath.Join(dir, fmt.Sprintf("w%da.go", c.W)), filepath.Join(dir, fmt.Sprintf("w%db.go", c.W))
 	run := func(files ...string) (string, int) {
-		cmd := exec.Command(bin, files...)
+		ctxT, cancel := context.WithTimeout(context.Background(), time.Minute)
+		defer cancel()
+		cmd := exec.CommandContext(ctxT, bin, files...)
+		cmd.SysProcAttr = &syscall.SysProcAttr{Pdeathsig: syscall.SIGKILL}
 		var se bytes.Buffer
 		cmd.Stderr = &se
 		err := cmd.Run()
 		c.Ops(1)
 		code := 0
+		if ctxT.Err() != nil {
+			c20Hung = true
+			return "plenctag did not finish within a minute (killed)", -1
+		}
 		if ee, ok := err.(*exec.ExitError); ok {
 			code = ee.ExitCode()
 		} else if err != nil {
@@ -668,8 +697,15 @@ func c20Multi(c *mc.Ctx, bin, dir, src string) {
 		b, _ := os.ReadFile(path)
 		return string(b), code
 	}
+	if c20Hung {
+		return
+	}
 	wantA, codeA := alone(fa, src)
 	wantB, codeB := alone(fb, other)
+	if c20Hung {
+		c.Violation("multi-file|tool-crashed:hang", "plenctag did not finish within a minute on "+src)
+		return
+	}
 	if codeA != 0 || codeB != 0 {
 		c.Outcome("multi-skipped-error-alone")
 		return // what happens to later files after an error is not specified
